@@ -122,7 +122,11 @@ def run_history(scene, ops, sandbox, stats=None, live=None, pristine=None, check
                 path, how, val = tuple(op[1]), op[2], op[3]
                 for target in (dynamic.AMPYCLOUD_PRMS, model):
                     leaf = get_path(target, path)
-                    if how == 'append':
+                    if how == 'addkey':
+                        leaf[val[0]] = copy.deepcopy(val[1])
+                    elif how == 'delkey':
+                        leaf.pop(val, None)
+                    elif how == 'append':
                         leaf.append(copy.deepcopy(val))
                     elif how == 'setitem0':
                         leaf[0] = copy.deepcopy(val)
@@ -205,8 +209,10 @@ def run_history(scene, ops, sandbox, stats=None, live=None, pristine=None, check
                 first = seen.setdefault(key, (out, kind, pos))
                 bump('observations')
                 n_runs[0] += 1
+                same_keys = [tuple(q) for q in leaf_paths(effective)] == \
+                    [tuple(q) for q in leaf_paths(dflt)]
                 if pristine is not None and snap is not None and first[2] == pos \
-                        and n_runs[0] % check_every == 0:
+                        and n_runs[0] % check_every == 0 and same_keys:
                     want = pristine(scene, copy.deepcopy(effective))
                     bump('probe.run_compared_with_history_free_process')
                     if want != out:
@@ -330,6 +336,11 @@ def gen_extras(rng, dflt):
                 (['MIN_SEP_VALS'], 'setitem0', 123),
                 (['MIN_SEP_LIMS'], 'setitem0', 4321),
                 (['LOWESS'], 'replace', {'frac': 0.5, 'it': 2}),
+                (['LOWESS'], 'addkey', ['delta', 0.0]),
+                (['LOWESS'], 'delkey', 'it'),
+                (['LAYERING_PRMS', 'gmm_kwargs'], 'delkey', 'min_prob'),
+                (['LAYERING_PRMS', 'gmm_kwargs'], 'addkey', ['random_seed', 45]),
+                (['LOWESS'], 'replace', {'frac': 0.5, 'it': 2, 'delta': 1.0}),
                 (['LAYERING_PRMS', 'gmm_kwargs'], 'replace',
                  {'scores': 'AIC', 'mode': 'delta', 'min_prob': 1.0, 'delta_mul_gain': 0.9,
                   'rescale_0_to_x': 50}),
